@@ -696,6 +696,11 @@ func (s *shard[K, V]) enforceSieveCapacity(
 	if (p.probation.size > p.probationCap || s.overCapacity()) && !p.probation.empty() {
 		admitFromProbation()
 	}
+	// the forced probation step may already have restored capacity; evicting a
+	// main resident on top of it would drop a second entry for one insert.
+	if !s.overCapacity() {
+		return
+	}
 	if (p.main.size > p.mainCap || s.overCapacity()) && !p.main.empty() {
 		s.evictMain(stats, in, tie, defaultMainVictimScan, true)
 	}
